@@ -120,6 +120,8 @@ CidrKinds == [ missing |-> "", valid |-> "cidr = \"10.0.0.0/8\"\n", bad |-> "cid
 PrefKinds == [ missing |-> "", valid |-> "client_random_prefix = \"aabb\"\n", masked |-> "client_random_prefix = \"a0b0/f0f0\"\n",
                odd |-> "client_random_prefix = \"abc\"\n", noMask |-> "client_random_prefix = \"aa/\"\n", slash |-> "client_random_prefix = \"/\"\n",
                nothex |-> "client_random_prefix = \"zz/ff\"\n", longMask |-> "client_random_prefix = \"aa/ffffffffffffffffffffffffffffffffffffffffffffffffffffffffffffffffffff\"\n",
+               maskLonger |-> "client_random_prefix = \"aabb/ffffff00\"\n", emptyPrefix |-> "client_random_prefix = \"/ff\"\n",
+               prefixLonger |-> "client_random_prefix = \"aabbccdd/ff\"\n",
                int |-> "client_random_prefix = 7\n" ]
 ActKinds == [ missing |-> "", allow |-> "action = \"allow\"\n", deny |-> "action = \"deny\"\n", bogus |-> "action = \"Deny\"\n", int |-> "action = 1\n" ]
 
